@@ -422,6 +422,17 @@ func (ex *Exec) applyContract(st *State, fr *Frame, x *ssa.Call, c *Contract, ke
 				iv.Sym.PanicKind = ek
 			}
 		}
+		if rk := c.Options["resultkind"]; rk != "" && i == 0 {
+			// `option resultkind=*pkg.T` (assumed contracts): the dynamic type of the interface value returned, where a
+			// spec expression cannot name it (pointer types)
+			if iv, ok := rv.(IfaceV); ok && iv.Sym != nil {
+				if kt := ex.P.LookupType(rk, tpkg); kt != nil {
+					st.assume(Eq(iv.Kind, IntC(int64(ex.P.TypeTag(kt)))))
+				} else {
+					ex.reject("option resultkind=%s: unknown type", rk)
+				}
+			}
+		}
 		rets = append(rets, rv)
 		nm := "result"
 		if results.Len() > 1 {
